@@ -78,9 +78,33 @@ def _number(txt: str):
     raise ValueError(f"no number prints as {txt!r}")
 
 
+class RecTag(Tag):
+    """a Tag subclass (users do subclass Tag) whose append() notes that it was called: displayed values have to be
+    appended to the block's TAG, through its own append()"""
+
+    def append(self, *args):
+        super().append(*args)
+        self.__dict__.setdefault("_n_appended", 0)
+        self.__dict__["_n_appended"] += len(args)
+
+
+class Recorder:
+    """the outermost display hook: a callable OBJECT that is falsy while it has recorded nothing (`__len__`), as a
+    list-like recorder would be; a hook must be restored and called whatever its truth value"""
+
+    def __init__(self):
+        self.log = []
+
+    def __call__(self, value):
+        self.log.append(value)
+
+    def __len__(self):
+        return len(self.log)
+
+
 class Env:
     def __init__(self, ntags: int):
-        self.tags = [Tag("div") for _ in range(ntags)]
+        self.tags = [RecTag("div") for _ in range(ntags)]
         self.ids = {id(t): i for i, t in enumerate(self.tags)}
         self.invalid = _invalids()
         self.invalid_ids = {id(x) for x in self.invalid}
@@ -193,11 +217,9 @@ def _hook_run(t: Toks) -> str:
         # initial children installed below the normalising API
         tag.children.data.extend(env.item(i) for i in items)
     progs = _prepare(env, progs)
-    log: list = []
-
-    def recorder(value: object) -> None:
-        log.append(value)
-
+    recorder = Recorder()
+    log = recorder.log
+    n_init = [len(t.children) for t in env.tags]
     flags: list = []
     saved = sys.displayhook
     try:
@@ -212,6 +234,9 @@ def _hook_run(t: Toks) -> str:
         back = sys.displayhook is recorder
     finally:
         sys.displayhook = saved
+    for t_, n0 in zip(env.tags, n_init):
+        if len(t_.children) - n0 != t_.__dict__.get("_n_appended", 0):
+            outcome = "children-not-added-through-the-tags-append"
     return " ".join([
         outcome, eb(back), elist(flags), elist([env.c_val(v) for v in log]),
         elist([elist([env.c_item(c) for c in tag.children]) for tag in env.tags]),
